@@ -65,10 +65,17 @@ func (ms msgServer) UpdateProvider(goCtx context.Context, msg *types.MsgUpdatePr
 		return nil, errors.Wrapf(types.ErrProviderNotFound, "id: %s", msg.Owner)
 	}
 
+	// prov.Owner is stored as the provider spelled it when registering (bech32 may be all upper case),
+	// lease ids carry the canonical form: compare canonical addresses
+	provOwner := prov.Owner
+	if addr, err := sdk.AccAddressFromBech32(prov.Owner); err == nil {
+		provOwner = addr.String()
+	}
+
 	// all filtering code below is madness!. should make an index to not melt the cpu
 	// TODO: use WithActiveLeases, filter by lease.Provider
 	ms.market.WithLeases(ctx, func(lease mtypes.Lease) bool {
-		if prov.Owner == lease.ID().Provider && (lease.State == mtypes.LeaseActive) {
+		if provOwner == lease.ID().Provider && (lease.State == mtypes.LeaseActive) {
 			var order mtypes.Order
 			order, found = ms.market.GetOrder(ctx, lease.ID().OrderID())
 			if !found {
